@@ -52,7 +52,23 @@ func lifecycleCase(c *mon.Ctx, r *mon.Rand, prop string) {
 			recB, opts.CachedReporter = cr.Recorder, cr
 		}
 	}
-	root, _ := vNewRoot(opts, 0, uint(r.Range(0, 3)))
+	// a fifth of the histories: a sanitizer that rewrites the tag values the
+	// tagged scopes are requested with, every request spelling the value another
+	// way ("gen-0", "gen.0", "gen:0" for "gen_0"): one scope under several raw
+	// registry keys (one shard, so that all spellings meet in it)
+	withSan := r.Chance(1, 5)
+	shards := uint(r.Range(0, 3))
+	if withSan {
+		shards = 1
+		opts.SanitizeOptions = &tally.SanitizeOptions{
+			NameCharacters:       tally.ValidCharacters{Ranges: tally.AlphanumericRange, Characters: tally.UnderscoreDashDotCharacters},
+			KeyCharacters:        tally.ValidCharacters{Ranges: tally.AlphanumericRange, Characters: tally.UnderscoreCharacters},
+			ValueCharacters:      tally.ValidCharacters{Ranges: tally.AlphanumericRange, Characters: tally.UnderscoreCharacters},
+			ReplacementCharacter: '_',
+		}
+	}
+	spell := 0
+	root, _ := vNewRoot(opts, 0, shards)
 	tagsOf := func(extra map[string]string) map[string]string {
 		out := map[string]string{}
 		for k, v := range opts.Tags {
@@ -65,7 +81,7 @@ func lifecycleCase(c *mon.Ctx, r *mon.Rand, prop string) {
 	}
 	var ops []string
 	desc := func() interface{} {
-		return map[string]interface{}{"cached": cached, "both_reporter_kinds": recB != nil, "root_tags": len(opts.Tags), "ops": ops}
+		return map[string]interface{}{"cached": cached, "both_reporter_kinds": recB != nil, "rewriting_sanitizer": withSan, "root_tags": len(opts.Tags), "ops": ops}
 	}
 	c.Eval(1)
 	bad := func(sig, why string) {
@@ -116,6 +132,13 @@ func lifecycleCase(c *mon.Ctx, r *mon.Rand, prop string) {
 				sc, prefix, tags = derive(), "", tagsOf(map[string]string{"rt": name})
 			case r.Bool():
 				sc, prefix, tags = derive(), name, tagsOf(nil)
+			case withSan:
+				clean := fmt.Sprintf("gen_%d", gen)
+				derive = func() tally.Scope {
+					spell++
+					return root.Tagged(map[string]string{"g": fmt.Sprintf("gen%s%d", []string{"-", ".", ":", "_"}[spell%4], gen)})
+				}
+				sc, prefix, tags = derive(), "", tagsOf(map[string]string{"g": clean})
 			default:
 				derive = func() tally.Scope { return root.Tagged(map[string]string{"g": name}) }
 				sc, prefix, tags = derive(), "", tagsOf(map[string]string{"g": name})
@@ -247,7 +270,7 @@ func lifecycleCase(c *mon.Ctx, r *mon.Rand, prop string) {
 		}
 		// two metrics whose names and tags differ but whose delimiter-joined
 		// rendering (name + '+' + k=v pairs) is one string: two metrics nevertheless
-		if len(opts.Tags) == 0 {
+		if len(opts.Tags) == 0 && !withSan {
 			twin := root.Tagged(map[string]string{"k": "v+"})
 			ga, gb := root.Gauge("tw+k=v"), twin.Gauge("tw")
 			ca, cb := root.Counter("tw+k=v"), twin.Counter("tw")
